@@ -1,7 +1,7 @@
 import Qv.Driver.Json
 import Qv.Model.Subst
 /-! JSON handlers for C18: ops `subvalue`, `subgraph`, `normalize`. -/
-namespace Qv.Drv
+namespace Qv.Drv.C18
 open Lean Qv
 
 /-- "dict" is the builtin dict, "DictArithmetic" the unsquashed base class, else a model type -/
@@ -56,9 +56,9 @@ def handleNormalize (j : Json) : Except String Json := do
     | .builtin => pure (errJson .attr)        -- a builtin dict has no `normalize` method
     | .da κ => pure (resJson tj (normalizeM κ D c))
 
-end Qv.Drv
+end Qv.Drv.C18
 
-namespace Qv.Drv
+namespace Qv.Drv.C18
 def handlersC18 : List (String × (Lean.Json → Except String Lean.Json)) :=
   [("subvalue", handleSubvalue), ("subgraph", handleSubgraph), ("normalize", handleNormalize)]
-end Qv.Drv
+end Qv.Drv.C18
